@@ -479,3 +479,222 @@ Proof.
   apply reach_ind; [exact inv_init|]. intros tr s l s' os _ I H. eapply inv_step_pres; eauto.
 Qed.
 
+
+(* ------------------------------------------------------------------ *)
+(* consequences *)
+
+Definition label_eq_dec : forall a b : label, {a = b} + {a <> b}.
+Proof. repeat decide equality. Defined.
+
+Lemma in_proj : forall k l tr, In l tr -> life l = Some k -> In l (proj k tr).
+Proof.
+  intros k l tr H L. unfold proj. apply filter_In. split; [exact H|]. unfold is_life. rewrite L. apply Nat.eqb_refl.
+Qed.
+
+Lemma in_path : forall tr s k l, reach tr s -> In l tr -> life l = Some k -> In l (path_of s k).
+Proof. intros tr s k l R H L. rewrite <- (inv_path _ _ (reach_inv _ _ R)). now apply in_proj. Qed.
+
+Lemma path_in_tr : forall tr s k l, reach tr s -> In l (path_of s k) -> In l tr.
+Proof.
+  intros tr s k l R H. rewrite <- (inv_path _ _ (reach_inv _ _ R)) in H. unfold proj in H.
+  apply filter_In in H. tauto.
+Qed.
+
+Lemma count_filter : forall (f : label -> bool) tr l, f l = true ->
+  count_occ label_eq_dec (filter f tr) l = count_occ label_eq_dec tr l.
+Proof.
+  intros f tr l Hf. induction tr as [|x tr IH]; simpl; [reflexivity|].
+  destruct (f x) eqn:E; simpl; destruct (label_eq_dec x l) as [->|N]; try congruence.
+Qed.
+
+Lemma path_nodup : forall k p, NoDup (path k p).
+Proof.
+  intros k p. destruct p; simpl; repeat constructor; simpl; intuition discriminate.
+Qed.
+
+Lemma life_count_le1 : forall tr s l k, reach tr s -> life l = Some k -> count_occ label_eq_dec tr l <= 1.
+Proof.
+  intros tr s l k R L. rewrite <- (count_filter (is_life k)).
+  - fold (proj k tr). rewrite (inv_path _ _ (reach_inv _ _ R)).
+    apply (proj1 (NoDup_count_occ label_eq_dec _)). unfold path_of. destruct (get s k); [apply path_nodup|constructor].
+  - unfold is_life. rewrite L. apply Nat.eqb_refl.
+Qed.
+
+Lemma count_in_1 : forall tr s l k, reach tr s -> life l = Some k -> In l tr -> count_occ label_eq_dec tr l = 1.
+Proof.
+  intros tr s l k R L H. pose proof (life_count_le1 _ _ _ _ R L).
+  apply (count_occ_In label_eq_dec) in H. lia.
+Qed.
+
+(* --- C20: fresh service ------------------------------------------------ *)
+
+Lemma fresh_service : forall tr s, reach tr s ->
+  (forall k c, get s k = Some c -> started (c_phase c) = true ->
+     In (NewSvc k) tr /\ exists i, c_svc c = Some i /\ c_asg c = Some i /\ c_used c = Some i /\ i < next_svc s) /\
+  (forall j k cj ck i, get s j = Some cj -> get s k = Some ck -> c_svc cj = Some i -> c_svc ck = Some i -> j = k) /\
+  (forall k s' os, step s (NewSvc k) = Some (s', os) ->
+     os = [ONewSvc (next_svc s)] /\ next_svc s' = S (next_svc s) /\
+     (exists c', get s' k = Some c' /\ c_svc c' = Some (next_svc s)) /\
+     (forall j cj, get s j = Some cj -> c_svc cj <> Some (next_svc s))) /\
+  (forall k s' os, step s (StartSrv k) = Some (s', os) ->
+     exists c c' i, get s k = Some c /\ c_svc c = Some i /\ c_asg c = Some i /\
+                    get s' k = Some c' /\ c_svc c' = Some i /\ c_used c' = Some i).
+Proof.
+  intros tr s R. pose proof (reach_inv _ _ R) as I. repeat split.
+  - apply (path_in_tr _ _ k _ R). unfold path_of. rewrite H. destruct (c_phase c); simpl in *; try discriminate; auto.
+  - pose proof (inv_data _ _ I _ _ H) as D. unfold data_ok in D.
+    destruct (c_phase c); simpl in *; try discriminate;
+      destruct D as [i [A [B [C E]]]]; exists i; auto.
+  - apply (inv_inj _ _ I).
+  - inv_step H. reflexivity.
+  - inv_step H. reflexivity.
+  - inv_step H. gs. rewrite get_set_conn, Nat.eqb_refl, Heqo. simpl. eexists; split; reflexivity.
+  - intros j cj Hj E. pose proof (inv_data _ _ I _ _ Hj) as D. unfold data_ok in D.
+    destruct (c_phase cj); repeat match goal with
+                                  | H : _ /\ _ |- _ => destruct H
+                                  | H : exists _, _ |- _ => destruct H
+                                  end; try congruence;
+      match goal with A : c_svc cj = Some ?x, B : ?x < _ |- _ => rewrite A in E; inversion E; lia end.
+  - intros k s' os H. inv_step H. pose proof (inv_data _ _ I _ _ Heqo) as D. unfold data_ok in D.
+    rewrite Heqp in D. destruct D as [[i [A [B C]]] _].
+    exists c, (with_started c), i. rewrite get_set_conn, Nat.eqb_refl, Heqo. simpl. repeat split; auto.
+Qed.
+
+(* --- C20: Finish exactly once, after the exit ------------------------- *)
+
+Lemma finish_enabled_state : forall tr s k s' os, reach tr s -> step s (Finish k) = Some (s', os) ->
+  exists c st i, get s k = Some c /\ c_phase c = PExited st /\ c_svc c = Some i /\ c_asg c = Some i /\
+                 c_used c = Some i /\ os = [OFinish i i st] /\ In (k, i, i, st) (finish_log s') /\
+                 In (SrvExit k st) tr /\ In (StartSrv k) tr /\ In (AssignerOk k) tr /\ In (NewSvc k) tr.
+Proof.
+  intros tr s k s' os R H. pose proof (reach_inv _ _ R) as I. inv_step H.
+  pose proof (inv_data _ _ I _ _ Heqo) as D. unfold data_ok in D. rewrite Heqp in D.
+  destruct D as [i [A [B [C E]]]]. rewrite A in Heqo0. inversion Heqo0; subst. rewrite C in Heqo1. inversion Heqo1; subst.
+  exists c, st, n0. repeat split; auto.
+  - simpl. apply in_or_app. right. now left.
+  - apply (path_in_tr _ _ k _ R). unfold path_of. rewrite Heqo, Heqp. simpl. tauto.
+  - apply (path_in_tr _ _ k _ R). unfold path_of. rewrite Heqo, Heqp. simpl. tauto.
+  - apply (path_in_tr _ _ k _ R). unfold path_of. rewrite Heqo, Heqp. simpl. tauto.
+  - apply (path_in_tr _ _ k _ R). unfold path_of. rewrite Heqo, Heqp. simpl. tauto.
+Qed.
+
+Lemma assigner_ok_returns : forall s k s' os, step s (AssignerOk k) = Some (s', os) ->
+  exists c i c', get s k = Some c /\ c_svc c = Some i /\ os = [OAssigner i true] /\
+                 get s' k = Some c' /\ c_svc c' = Some i /\ c_asg c' = Some i.
+Proof.
+  intros s k s' os H. inv_step H. exists c, n, (with_asg c).
+  rewrite get_set_conn, Nat.eqb_refl, Heqo. simpl. repeat split; auto.
+Qed.
+
+Lemma finish_once_after_exit : forall tr s, reach tr s ->
+  (forall k, count_occ label_eq_dec tr (Finish k) <= 1) /\
+  (forall k t1 t2, tr = t1 ++ Finish k :: t2 ->
+     exists s1 s2 c st i,
+       reach t1 s1 /\ step s1 (Finish k) = Some (s2, [OFinish i i st]) /\
+       get s1 k = Some c /\ c_phase c = PExited st /\ c_svc c = Some i /\ c_asg c = Some i /\ c_used c = Some i /\
+       In (SrvExit k st) t1 /\ In (StartSrv k) t1 /\ In (AssignerOk k) t1 /\ In (NewSvc k) t1 /\
+       ~ In (Finish k) t1 /\ ~ In (Finish k) t2 /\ In (k, i, i, st) (finish_log s2)) /\
+  (returned s = true -> forall k, In (StartSrv k) tr -> count_occ label_eq_dec tr (Finish k) = 1).
+Proof.
+  intros tr s R. repeat split.
+  - intros k. now apply (life_count_le1 _ s _ k R).
+  - intros k t1 t2 E. subst tr.
+    pose proof (life_count_le1 _ _ (Finish k) k R eq_refl) as C1.
+    rewrite count_occ_app in C1. rewrite (count_occ_cons_eq label_eq_dec t2 (eq_refl (Finish k))) in C1.
+    apply reach_app_inv in R. destruct R as [s1 [R1 [os R2]]]. cbn [run] in R2.
+    destruct (step s1 (Finish k)) as [[s2 o2]|] eqn:ES; [|discriminate].
+    destruct (finish_enabled_state _ _ _ _ _ R1 ES) as [c [st [i H]]].
+    destruct H as [G [P [A [B [U [O [L [X1 [X2 [X3 X4]]]]]]]]]]. subst o2.
+    exists s1, s2, c, st, i. repeat split; auto.
+    + intros H. apply (count_occ_In label_eq_dec) in H. lia.
+    + intros H. apply (count_occ_In label_eq_dec) in H. lia.
+  - intros Ret k H. apply (count_in_1 _ s (Finish k) k R eq_refl).
+    pose proof (reach_inv _ _ R) as I.
+    pose proof (in_path _ _ k _ R H eq_refl) as P. unfold path_of in P.
+    destruct (get s k) as [c|] eqn:G; [|destruct P].
+    pose proof (inv_ret _ _ I Ret) as W. rewrite (inv_wg _ _ I) in W.
+    pose proof (live_zero_done _ W k c G) as D.
+    apply (path_in_tr _ _ k _ R). unfold path_of. rewrite G.
+    destruct (c_phase c); simpl in *; try discriminate; intuition discriminate.
+Qed.
+
+(* --- C20: Loop returns last ------------------------------------------- *)
+
+Lemma all_done_when_wg0 : forall tr s, reach tr s -> wg s = 0 ->
+  forall k c, get s k = Some c -> is_done (c_phase c) = true.
+Proof.
+  intros tr s R W k c G. pose proof (reach_inv _ _ R) as I. rewrite (inv_wg _ _ I) in W.
+  exact (live_zero_done _ W k c G).
+Qed.
+
+Lemma done_path : forall tr s k, reach tr s -> wg s = 0 -> In (Accept k) tr ->
+  In (ConnDone k) tr /\ (In (StartSrv k) tr -> In (Finish k) tr).
+Proof.
+  intros tr s k R W H. pose proof (in_path _ _ k _ R H eq_refl) as P. unfold path_of in P.
+  destruct (get s k) as [c|] eqn:G; [|destruct P].
+  pose proof (all_done_when_wg0 _ _ R W k c G) as D. split.
+  - apply (path_in_tr _ _ k _ R). unfold path_of. rewrite G. destruct (c_phase c); simpl in *; try discriminate; tauto.
+  - intros S. pose proof (in_path _ _ k _ R S eq_refl) as P2. unfold path_of in P2. rewrite G in P2.
+    apply (path_in_tr _ _ k _ R). unfold path_of. rewrite G.
+    destruct (c_phase c); simpl in *; try discriminate; intuition discriminate.
+Qed.
+
+Lemma returned_frozen : forall tr s l s' os, reach tr s -> returned s = true -> step s l = Some (s', os) ->
+  life l = None /\ returned s' = true.
+Proof.
+  intros tr s l s' os R Ret H. pose proof (reach_inv _ _ R) as I.
+  pose proof (inv_ret _ _ I Ret) as W. unfold returned in *.
+  destruct l; inv_step H; simpl; try (split; [reflexivity|assumption]); try discriminate;
+    try (rewrite Heqa in Ret; discriminate);
+    try (pose proof (all_done_when_wg0 _ _ R W _ _ Heqo) as D; rewrite Heqp in D; discriminate);
+    try congruence.
+Qed.
+
+Lemma returned_run_frozen : forall t tr s s' os, reach tr s -> returned s = true -> run s t = Some (s', os) ->
+  forall l, In l t -> life l = None.
+Proof.
+  induction t as [|x t IH]; intros tr s s' os R Ret H l Hin; [destruct Hin|].
+  cbn [run] in H. destruct (step s x) as [[s1 o1]|] eqn:E; [|discriminate].
+  destruct (run s1 t) as [[s2 o2]|] eqn:E2; [|discriminate].
+  destruct (returned_frozen _ _ _ _ _ R Ret E) as [L Ret1].
+  destruct Hin as [<-|Hin]; [exact L|].
+  eapply (IH (tr ++ [x]) s1); eauto. eapply reach_snoc; eauto.
+Qed.
+
+Lemma waiting_in_tr : forall tr s e, reach tr s -> acc s = Waiting e -> In (AcceptErr e) tr.
+Proof.
+  intros tr. induction tr as [|x tr IH] using rev_ind; intros s e R A.
+  - destruct R as [os R]. simpl in R. inversion R; subst. discriminate.
+  - apply reach_snoc_inv in R. destruct R as [s0 [os [R0 H]]]. apply in_or_app.
+    destruct (label_eq_dec x (AcceptErr e)) as [->|N]; [right; now left|]. left.
+    destruct x; inv_step H; simpl in A; try (eapply IH; eauto; fail); try congruence.
+Qed.
+
+Lemma returns_last : forall tr s, reach tr s ->
+  (forall v s' os, step s (LoopReturn v) = Some (s', os) ->
+     (forall k c, get s k = Some c -> is_done (c_phase c) = true) /\
+     (forall k, In (Accept k) tr -> In (ConnDone k) tr /\ (In (StartSrv k) tr -> In (Finish k) tr)) /\
+     (exists e, acc s = Waiting e /\ In (AcceptErr e) tr /\ (v = RNil <-> e = EClosing)) /\
+     os = [OReturn v] /\ returned s' = true) /\
+  (forall v t1 t2, tr = t1 ++ LoopReturn v :: t2 -> forall l, In l t2 -> life l = None) /\
+  (forall v, acc s = Returned v -> In (LoopReturn v) tr).
+Proof.
+  intros tr s R. split; [|split].
+  - intros v s' os H. inv_step H. repeat split.
+    + intros k c G. eapply all_done_when_wg0; eauto.
+    + eapply done_path; eauto.
+    + eapply done_path; eauto.
+    + exists e. split; [reflexivity|]. split.
+      * eapply waiting_in_tr; eauto.
+      * destruct v, e; simpl in *; split; intros; try discriminate; reflexivity.
+  - intros v t1 t2 E. subst tr. apply reach_app_inv in R. destruct R as [s1 [R1 [os R2]]].
+    cbn [run] in R2. destruct (step s1 (LoopReturn v)) as [[s2 o2]|] eqn:ES; [|discriminate].
+    destruct (run s2 t2) as [[s3 o3]|] eqn:E3; [|discriminate].
+    assert (Ret : returned s2 = true) by (inv_step ES; reflexivity).
+    eapply (returned_run_frozen t2 (t1 ++ [LoopReturn v]) s2); eauto. eapply reach_snoc; eauto.
+  - intros v. revert s R. induction tr as [|x tr IH] using rev_ind; intros s R A.
+    + destruct R as [os R]. simpl in R. inversion R; subst. discriminate.
+    + apply reach_snoc_inv in R. destruct R as [s0 [os [R0 H]]]. apply in_or_app.
+      destruct (label_eq_dec x (LoopReturn v)) as [->|N]; [right; now left|]. left.
+      destruct x; inv_step H; simpl in A; try (eapply IH; eauto; fail); try congruence.
+Qed.
